@@ -16,7 +16,7 @@ known = json.load(open(os.path.join(ROOT, "KNOWN_FINDINGS.json")))["findings"]
 
 MODEL = {
     "C01": "Model/Store.lean (normPoint, collapse, mergeBatch, nodePoints, edgePoints); Lemmas/LWW.lean",
-    "C02": "Model/Sync.lean (the pass) on two copies of Model/Store.lean, Model/SyncLoop.lean (the select loop of Run); Lemmas/Sync, SyncExchange, SyncTree (whole subtrees), SyncSend and SyncSendTree (transfer of a subtree missing upstream), SyncLoop",
+    "C02": "Model/Sync.lean (the pass) on two copies of Model/Store.lean, Model/SyncLoop.lean (the select loop of Run); Lemmas/Sync, SyncExchange, SyncTree (whole subtrees), SyncSend and SyncSendTree (transfer of a subtree missing upstream), StoreRows (what every stored row looks like), SyncLoop",
     "C03": "Model/Store.lean (bump, edgeWrite, edgeInsert, calcHash), Model/Crc32.lean; Lemmas/Hash, StoreBridge, StoreInv, StoreSteps, StoreEdge, StoreNewEdge",
     "C04": "Model/Crash.lean on Model/Store.lean",
     "C05": "Model/Store.lean (edgePoints pre-checks, ancestors); Lemmas/StoreReach.lean",
